@@ -119,7 +119,7 @@ class Wire:
             self.hard += 1
         self.calls.append((kind, act, n))
         self.consumed.add(kind)
-        self.accepted += bytes(data[:k])
+        self.accepted += data if k == n else data[:k]
         return k
 
 
@@ -211,6 +211,7 @@ class Obs(BaseComponent):
         self.ep = ep
         self.log = []           # (name, calls so far, accepted so far)
         self.writes = 0         # write events for the main descriptor dispatched so far
+        self.close_seen = None  # (writes dispatched, bytes accepted) when the close request was dispatched
         self.exceptions = []
 
     @handler('error', 'disconnect', 'disconnected', 'closed', channel='*', priority=100)
@@ -227,6 +228,11 @@ class Obs(BaseComponent):
         if self.ep == 'server' and (not args or args[0] is not self.main):
             return
         self.writes += 1
+
+    @handler('close', channel='*', priority=100)
+    def _on_close(self, event, *args, **kwargs):
+        if self.close_seen is None:
+            self.close_seen = (self.writes, len(self.wire.accepted))
 
     @handler('exception', channel='*', priority=100)
     def _on_exception(self, event, etype, value, tb, handler=None, fevent=None):
@@ -257,7 +263,7 @@ class C11(Prop):
         'a send attempt on the already closed descriptor (fails with EBADF, nothing reaches the OS) is not counted as a write after close',
         'poller contract as verified by C10: _write(fd) is delivered once per iteration while the component is registered as writer',
     )
-    budget = {'quick': (1200, 4), 'thorough': (20000, 16)}
+    budget = {'quick': (1000, 4), 'thorough': (8000, 16)}
 
     def setup(self):
         driver.quiet_process()
@@ -269,10 +275,11 @@ class C11(Prop):
         big = tier != 'quick'
         small = st.integers(0, 64)
         if big:
-            size = st.one_of(small, small, small, st.sampled_from([4096, 4097, 65537, 1 << 20, (2 << 20) + 1, 3 << 20]))
+            size = st.one_of(small, small, small, small, small,
+                             st.sampled_from([4096, 4097] * 4 + [65537, 1 << 20, (2 << 20) + 1, 3 << 20]))
         else:
-            size = st.one_of(small, small, small, small,
-                             st.sampled_from([4096, 4097, 4096, 4097, 4096, 4097, 65537, 1 << 20]))
+            size = st.one_of(small, small, small, small, small, small,
+                             st.sampled_from([4096, 4097] * 6 + [65537, 1 << 20]))
         return st.fixed_dictionaries({
             'ep': st.sampled_from(['server'] * 3 + ['tcpclient'] * 3 + ['file'] * 3 + ['unixclient']),
             'sizes': st.lists(size, min_size=1, max_size=8),
@@ -317,6 +324,9 @@ class C11(Prop):
         other = None
         listen = None
         exc = None
+        obs = None
+        still_writing = []
+        state = {'stuck': False, 'setup': True}
         try:
             if ep == 'server':
                 main = ScriptSock(spec['script'])
@@ -372,7 +382,6 @@ class C11(Prop):
                         root.fire(p_write(fd), poller.getTarget(fd))
                 root.tick()
 
-            state = {'stuck': False, 'setup': True}
             if driver.settle(root, 50) < 0:
                 state['setup'] = False
             if ep == 'server':
@@ -435,16 +444,12 @@ class C11(Prop):
             else:
                 state['stuck'] = True
             still_writing = [f is main for f in write_fds() if poller.isWriting(f)]
-        except Exception as e:  # escaped from tick(): the loop of a real application would have died
+        except Exception:  # escaped from tick(): the loop of a real application would have died
             import traceback
             exc = traceback.format_exc()[-600:]
-            state = {'stuck': False, 'setup': True}
-            still_writing = []
-            obs = locals().get('obs')
-            wire = main.wire
         finally:
             snap = {
-                'accepted': bytes(main.wire.accepted), 'closed_at': main.wire.closed_at,
+                'accepted': main.wire.accepted, 'closed_at': main.wire.closed_at,
                 'calls': list(main.wire.calls), 'fatal_calls': list(main.wire.fatal_calls),
                 'after_close': main.wire.after_close, 'hard': main.wire.hard, 'consumed': set(main.wire.consumed),
                 'other_accepted': bytes(other.wire.accepted) if other is not None else b'',
@@ -464,6 +469,7 @@ class C11(Prop):
             'payloads': payloads, 'others': others, 'close_at': close_at, 'snap': snap, 'exc': exc,
             'log': list(obs.log) if obs is not None else [], 'exceptions': list(obs.exceptions) if obs is not None else [],
             'stuck': state['stuck'], 'setup': state['setup'], 'still_writing': still_writing,
+            'close_seen': obs.close_seen if obs is not None else None,
         }
 
     # ------------------------------------------------------------------ oracle
@@ -475,8 +481,8 @@ class C11(Prop):
         payloads = r['payloads']
         close_at = r['close_at']
         acc = snap['accepted']
-        w_all = b''.join(payloads)
-        w_pre = w_all if close_at is None else b''.join(payloads[:close_at])
+        n_all = sum(len(p) for p in payloads)
+        n_pre = n_all if close_at is None else sum(len(p) for p in payloads[:close_at])
         fatal = bool(snap['fatal_calls'])
         log = r['log']
 
@@ -489,13 +495,18 @@ class C11(Prop):
                 [n for n, _, _ in log[:8]], extra))
 
         if not r['setup']:
-            return Result(False, 'harness-setup', 'endpoint could not be set up on the doubles', inconclusive=True) \
-                if False else bad('setup', 'endpoint did not come up on the doubles (connect/accept/open)')
+            # connect/accept/open did not work on the doubles: nothing about C11 can be said
+            return Result(True, classes=['setup-failed', 'ep:' + ep], inconclusive=True)
         if r['exc']:
             return bad('exception-escaped', 'exception escaped tick(): %s' % r['exc'])
 
         # in order, each byte once: accepted is always a prefix of what was written
-        if not w_all.startswith(acc):
+        if n_all <= BLOCK_LEN:  # payloads are consecutive slices of the stream: compare in place
+            is_prefix = len(acc) <= n_all and memoryview(_BLOCK[0])[:len(acc)] == acc
+        else:
+            is_prefix = _stream(0, n_all).startswith(acc)
+        if not is_prefix:
+            w_all = _stream(0, n_all)
             k = 0
             m = min(len(acc), len(w_all))
             while k < m and acc[k] == w_all[k]:
@@ -516,10 +527,10 @@ class C11(Prop):
             if not any(ncalls > j for _, ncalls, _ in log):
                 return bad('fatal-unsignalled', 'send() raised %s but no error/disconnect event followed' % snap['calls'][j][1])
         else:
-            if len(acc) < len(w_pre):
+            if len(acc) < n_pre:
                 what = 'the close took effect' if snap['closed_at'] is not None else 'quiescence'
                 return bad('lost', 'only %d of the %d bytes written before %s were accepted (transient refusals/partial '
-                                   'sends only)' % (len(acc), len(w_pre), what if close_at is not None else 'quiescence'))
+                                   'sends only)' % (len(acc), n_pre, what if close_at is not None else 'quiescence'))
             if close_at is not None and snap['closed_at'] is None:
                 return bad('close-not-effected', 'close requested, buffer drained, but the descriptor was never closed')
             if r['stuck'] or any(r['still_writing']):
@@ -539,10 +550,10 @@ class C11(Prop):
             classes.append('consumed:' + kind)
         if snap['hard']:
             classes.append('refusal-with>=2-buffered')
-        if close_at is not None and snap['closed_at'] is not None and snap['closed_at'] > 0 and not fatal:
-            # the close had to wait if bytes were accepted after the request was dispatched; approximated by
-            # "something was written and the descriptor ended closed"
-            classes.append('close-after-data')
+        if r['close_seen'] is not None:
+            nw, nacc = r['close_seen']
+            if sum(len(p) for p in payloads[:nw]) > nacc:
+                classes.append('close-while-buffered')
         if close_at is not None and close_at < len(payloads):
             classes.append('write-after-close-request')
         if snap['after_close']:
